@@ -433,6 +433,30 @@ def main():
     if not mk:
         raise Missing("media:key-suffix")
     strfact("mediaKeySuffix", mk.group(1), "crypto.rs derive_encryption_key_with_secret context suffix")
+    # ---- C16: order of the steps of process_welcome / accept_welcome / decline_welcome ----------
+    # codes: 0 validate_welcome_event, 1 find_processed_welcome_by_event_id (dedup), 2 preview_welcome,
+    # 3 save_group, 4 replace_group_relays, 5 the rumor-id check (MissingRumorEventId), 6 save_processed_welcome,
+    # 7 save_welcome, 8 into_group, 9 get_group
+    wl_src = strip_comments(non_test(read("crates/mdk-core/src/welcomes.rs")))
+    def step_order(fn, fact):
+        body = fn_body(wl_src, fn, fact)
+        pats = [(0, r"validate_welcome_event\s*\("), (1, r"find_processed_welcome_by_event_id\s*\("), (2, r"preview_welcome\s*\("),
+                (3, r"\.save_group\s*\("), (4, r"\.replace_group_relays\s*\("), (5, r"MissingRumorEventId"),
+                (6, r"\.save_processed_welcome\s*\("), (7, r"\.save_welcome\s*\("), (8, r"\.into_group\s*\("), (9, r"\.get_group\s*\(")]
+        found = []
+        for code, pat in pats:
+            for m in re.finditer(pat, body):
+                found.append((m.start(), code))
+        if not found:
+            raise Missing(fact + ":steps")
+        return [c for _, c in sorted(found)]
+    for lean, fn in [("welcomeProcessOrder", "process_welcome"), ("welcomeAcceptOrder", "accept_welcome"), ("welcomeDeclineOrder", "decline_welcome")]:
+        order = step_order(fn, "fn:" + fn)
+        facts[lean] = ("List Nat", "[" + ", ".join(map(str, order)) + "]", f"mdk-core welcomes.rs {fn}: order of validation / storage / MLS steps")
+    psw = fn_body(wl_src, "parse_serialized_welcome", "fn:parse_serialized_welcome")
+    boolean("welcomeReplacesOldGroup", bool(re.search(r"\.replace_old_group\s*\(\s*\)", psw)), "mdk-core welcomes.rs parse_serialized_welcome builds the StagedWelcome with .replace_old_group()")
+    pw_body = fn_body(wl_src, "process_welcome", "fn:process_welcome")
+    boolean("welcomeProcessChecksHeldGroup", bool(re.search(r"GroupState\s*::\s*Active", pw_body.split("GroupState::Pending")[0])) , "mdk-core welcomes.rs process_welcome looks for an Active group of that id before writing (false = it does not)")
 
     # ---- emit -------------------------------------------------------------------------------
     lines = ["/- GENERATED by tools/gen_model.py from the current /repo source — do not edit. -/",
